@@ -345,8 +345,9 @@ void run_TwoLevelIterator(Case& c) {
   unsigned nops    = c.pickOps();
   static const char* FL[] = {"begin", "cbegin", "rbegin", "crbegin"};
   std::string cfg = std::string(SHAPES[shape]) + "|" + FL[flavour];
-  c.begin("TwoLevelIterator", cfg,
-          J().kv("outer", SHAPES[shape]).kv("flavour", std::string("stl_two_level_") + FL[flavour]).kv("nops", nops));
+  if (!c.begin("TwoLevelIterator", cfg,
+          J().kv("outer", SHAPES[shape]).kv("flavour", std::string("stl_two_level_") + FL[flavour]).kv("nops", nops)))
+    return;
   switch (shape) {
   case 0: return stlFlavours<VV>(c, flavour, nops);
   case 1: return stlFlavours<VL>(c, flavour, nops);
@@ -368,9 +369,11 @@ void run_TwoLevelIteratorA(Case& c) {
   static const char* TG[] = {"forward", "bidirectional", "random_access"};
   std::string cfg = std::string(SHAPES[shape]) + "|" + TG[tag] + (constOuter ? "|const" : "") +
                     (tag == 2 && backJumps ? "|backjumps" : "");
-  c.begin("TwoLevelIteratorA", cfg,
+  if (!c.begin("TwoLevelIteratorA", cfg,
           J().kv("outer", SHAPES[shape]).kv("tag", TG[tag]).kv("const_outer", constOuter)
-              .kv("backward_jumps_beyond_one_step", tag == 2 && backJumps).kv("nops", nops));
+              .kv("backward_jumps_beyond_one_step", tag == 2 && backJumps).kv("nops", nops),
+               fwdOuter ? "forward-outer" : ""))
+    return;
   switch (shape) {
   case 0: return aTags<VV>(c, tag, constOuter, backJumps, nops);
   case 1: return aTags<VL>(c, tag, constOuter, backJumps, nops);
